@@ -233,10 +233,7 @@ def run(chk, prog):
     evs.opaque_funcs |= {"_validate_addr"}
     r = evs.eval_fn(c.methods["get_submap"], c.module, c)
     t = r.ret
-    okgs = is_call(t, "reduce") and len(t[2]) == 3 and t[2][2] == SELF and is_call(t[2][1], "_validate_addr")
-    if okgs:
-        rr = evs.apply(t[2][0], [P("$m"), P("$a")], module=c.module, cls=c)
-        okgs = rr == ("call", ("attr", P("$m"), "get_inner_map"), (P("$a"),), ())
+    okgs = is_t(t, "loop") and t[2] == SELF and is_call(t[1], "_validate_addr") and t[3] == ("call", ("attr", SELF, "get_inner_map"), (mk_elem(t[1]),), ())
     chk.require(okgs, "CHM-RECURSE", "ChoiceMap.get_submap", "left fold of get_inner_map over the flattened address", derived=show(t)[:200], expected="reduce(lambda chm, a: chm.get_inner_map(a), validated flat address, self)", where=W(c, "get_submap"))
     r = ev.eval_fn(c.methods["__getitem__"], c.module, c)
     v = ("call", ("attr", ("call", ("attr", SELF, "get_submap"), (ADDR,), ()), "get_value"), (), ())
